@@ -2,6 +2,7 @@
 //! and is listed in the evidence `trusted_base`.  Ghost code only.
 #![allow(unused_imports, dead_code, unused_variables)]
 use vstd::prelude::*;
+use vstd::future::FutureAdditionalSpecFns;
 
 verus! {
 
@@ -241,6 +242,10 @@ pub assume_specification[ String::as_bytes ](s: &String) -> (r: &[u8])
 pub struct ExIoError(std::io::Error);
 
 
+#[verifier::external_type_specification]
+#[verifier::external_body]
+pub struct ExUri(http::Uri);
+
 // ------------------------------------------------------------------ num_traits::FromPrimitive
 
 /// Result of the derive-generated `FromPrimitive::from_*` for a type (uninterpreted; pinned per
@@ -286,6 +291,33 @@ pub trait ExRead {
             r is Ok <==> old(buf)@.len() <= rd_rest(old(self)).len(),
             r is Ok ==> final(buf)@ == rd_rest(old(self)).take(old(buf)@.len() as int)
                 && rd_rest(final(self)) == rd_rest(old(self)).skip(old(buf)@.len() as int);
+}
+
+#[verifier::external_type_specification]
+#[verifier::external_body]
+#[verifier::reject_recursive_types(R)]
+pub struct ExReadExact<'a, R: ?Sized>(futures_util::io::ReadExact<'a, R>);
+
+#[verifier::external_trait_specification]
+pub trait ExAsyncRead {
+    type ExternalTraitSpecificationFor: futures_util::io::AsyncRead;
+}
+
+/// A-async-stream: the future returned by `AsyncReadExt::read_exact`, once awaited, has the stream
+/// effect of `std::io::Read::read_exact` — whatever chunking / not-ready results preceded completion.
+#[verifier::external_trait_specification]
+pub trait ExAsyncReadExt: futures_util::io::AsyncRead {
+    type ExternalTraitSpecificationFor: futures_util::io::AsyncReadExt;
+
+    fn read_exact<'a>(&'a mut self, buf: &'a mut [u8]) -> (f: futures_util::io::ReadExact<'a, Self>)
+        where Self: Unpin
+        ensures
+            f.awaited() ==> {
+                &&& final(buf)@.len() == old(buf)@.len()
+                &&& (f@ is Ok <==> old(buf)@.len() <= rd_rest(old(self)).len())
+                &&& (f@ is Ok ==> final(buf)@ == rd_rest(old(self)).take(old(buf)@.len() as int)
+                    && rd_rest(final(self)) == rd_rest(old(self)).skip(old(buf)@.len() as int))
+            };
 }
 
 pub assume_specification[ <bytes::Bytes as From<Vec<u8>>>::from ](v: Vec<u8>) -> (r: bytes::Bytes)
